@@ -3,10 +3,9 @@ use cbor_event::de::Deserializer;
 use cbor_event::se::Serializer;
 use cbor_event::Serialize;
 use crate::{BootstrapWitnesses, CBORReadLen, DeserializeError, DeserializeFailure, Key, Language, NativeScripts, PlutusList, PlutusScripts, Redeemers, TransactionWitnessSet, Vkeywitnesses};
-use crate::protocol_types::{CBORSpecial, CBORType, Deserialize, opt64, TransactionWitnessSetRaw};
+use crate::protocol_types::{CBORSpecial, CBORType, Deserialize, TransactionWitnessSetRaw};
 use crate::serialization::utils::{deserilized_with_orig_bytes, merge_option_plutus_list};
 use crate::traits::NoneOrEmpty;
-use crate::utils::opt64_non_empty;
 
 impl cbor_event::se::Serialize for TransactionWitnessSet {
     fn serialize<'a, W: Write + Sized>(&self, serializer: &'a mut Serializer<W>) -> cbor_event::Result<&'a mut Serializer<W>> {
@@ -214,12 +213,17 @@ pub(super) fn serialize<'se, W: Write>(
         },
         _ => 0,
     };
+    // a field is written below iff it is present and either comes with raw bytes or is non-empty:
+    // the map length must count exactly those fields
+    fn written<T: NoneOrEmpty>(field: &Option<T>, raw: Option<&Vec<u8>>) -> u64 {
+        (field.is_some() && (raw.is_some() || !field.is_none_or_empty())) as u64
+    }
     serializer.write_map(cbor_event::Len::Len(
-        opt64(&wit_set.vkeys)
-            + opt64_non_empty(&wit_set.native_scripts)
-            + opt64_non_empty(&wit_set.bootstraps)
-            + opt64_non_empty(&wit_set.plutus_data)
-            + opt64_non_empty(&wit_set.redeemers)
+        written(&wit_set.vkeys, raw_parts.and_then(|x| x.vkeys.as_ref()))
+            + written(&wit_set.native_scripts, raw_parts.and_then(|x| x.native_scripts.as_ref()))
+            + written(&wit_set.bootstraps, raw_parts.and_then(|x| x.bootstraps.as_ref()))
+            + written(&wit_set.plutus_data, raw_parts.and_then(|x| x.plutus_data.as_ref()))
+            + written(&wit_set.redeemers, raw_parts.and_then(|x| x.redeemers.as_ref()))
             + plutus_added_length,
     ))?;
     if let Some(field) = &wit_set.vkeys {
